@@ -323,3 +323,7 @@ import props_c15
 props_c15.register(_sys.modules[__name__])
 import props_c14
 props_c14.register(_sys.modules[__name__])
+import props_c06
+props_c06.register(_sys.modules[__name__])
+import props_c08
+props_c08.register(_sys.modules[__name__])
